@@ -593,3 +593,103 @@ def c10_layer(env):
 
 
 reg("C10", lambda env: [c10_layer(env)], ["CPython's zoneinfo and glibc 2.36 are the oracles; leap-second instants themselves are excluded (glibc renders them as :60), instants after the last transition of a footer-less file are compared only for 'no local time type', TZ descriptions are compared on the sub-language where glibc is authoritative (rule days well inside the year, times 0-24 h, no RFC 8536 extensions)"])
+
+
+# ------------------------------------------------------------------------------------------------
+# thorough-tier sanitizer layers: libFuzzer + ASan targets with the oracles inside, valgrind memcheck
+
+def fuzz_layer(env, target, seconds, seeds_dir=None, max_len=None):
+    @layer("libfuzzer-" + target)
+    def f():
+        fuzz_dir = os.path.join(env.here, "fuzz")
+        e = base_env()
+        rc, out, err, wall = run(["cargo", "+nightly", "fuzz", "build", "--fuzz-dir", fuzz_dir, target], cwd=env.harness, env=e, timeout=3000)
+        binary = os.path.join(fuzz_dir, "target", "x86_64-unknown-linux-gnu", "release", target)
+        if rc != 0 or not os.path.exists(binary):
+            raise LayerInconclusive("cargo fuzz build failed: %s" % err.strip()[-400:])
+        corpus = os.path.join(fuzz_dir, "corpus", target)
+        os.makedirs(corpus, exist_ok=True)
+        art = os.path.join(env.work, "fuzz-artifacts-%s" % target)
+        shutil.rmtree(art, ignore_errors=True)
+        os.makedirs(art)
+        cmd = [binary, "-max_total_time=%d" % seconds, "-timeout=10", "-rss_limit_mb=4096", "-fork=%d" % max(2, min(12, env.threads - 2)), "-ignore_crashes=0", "-ignore_timeouts=0", "-ignore_ooms=0", "-seed=%d" % env.seed, "-artifact_prefix=%s/" % art, "-print_final_stats=1"]
+        if max_len:
+            cmd.append("-max_len=%d" % max_len)
+        cmd.append(corpus)
+        if seeds_dir:
+            cmd.append(seeds_dir)
+        rc, out, err, wall = run(cmd, cwd=fuzz_dir, env=e, timeout=seconds + 600)
+        log = err + out
+        import re
+        execs = 0
+        for m in re.finditer(r"#(\d+):? cov: (\d+)", log):
+            execs = max(execs, int(m.group(1)))
+        m = re.search(r"stat::number_of_executed_units:\s*(\d+)", log)
+        if m:
+            execs = max(execs, int(m.group(1)))
+        cov = [int(m.group(2)) for m in re.finditer(r"#(\d+):? cov: (\d+)", log)]
+        violations = []
+        arts = sorted(os.listdir(art))
+        if rc != 0 or arts:
+            mv = re.search(r"TZMON-FUZZ-VIOLATION (.*)", log)
+            what = "libFuzzer target %s: %s" % (target, "monitor violation" if mv else "crash / sanitizer report / timeout")
+            keep = None
+            if arts:
+                keep = os.path.join(env.here, "replays", "fuzz-%s-%s" % (target, arts[0]))
+                shutil.copy(os.path.join(art, arts[0]), keep)
+            violations.append(viol(what, "artifact %s" % keep, "no crash, no sanitizer report, oracle silent", (mv.group(1) if mv else log.strip()[-500:])[:600], env.seed))
+        shutil.rmtree(art, ignore_errors=True)
+        inconc = [] if execs > 0 or violations else ["libFuzzer executed nothing: %s" % log.strip()[-300:]]
+        return {"name": "libfuzzer-" + target, "profile": "asan+overflow-checks", "evaluations": execs, "violations": violations, "replay_spec": None, "sanitizer_reports": len(violations),
+                "extra": {"seconds": seconds, "executions": execs, "edge_coverage_final": cov[-1] if cov else None}, "samples": [{"target": target, "executions": execs, "coverage_edges": cov[-1] if cov else None}], "inconclusive": inconc}
+    return f
+
+
+def valgrind_layer(env, scale, prop=None):
+    @layer("valgrind-memcheck")
+    def f():
+        if not shutil.which("valgrind"):
+            raise LayerInconclusive("valgrind not available")
+        binary = build_harness(env, "release")
+        try:
+            r = run_tzmon(env, profile="release", binary=binary, scale=scale, prop=prop, threads=4, name="valgrind-memcheck", wrapper=["valgrind", "--quiet", "--error-exitcode=99", "--errors-for-leak-kinds=none", "--undef-value-errors=yes"], timeout=6000)
+            r["sanitizer_reports"] = 0
+            r["replay_spec"] = None
+            return r
+        except LayerInconclusive as ex:
+            msg = str(ex)
+            if "status 99" in msg or "Invalid read" in msg or "Invalid write" in msg or "uninitialised" in msg:
+                return {"name": "valgrind-memcheck", "profile": "valgrind", "evaluations": 0, "sanitizer_reports": 1, "violations": [viol("valgrind memcheck report", "tzmon %s scale %r" % (prop or env.prop, scale), "no invalid access / uninitialised value", msg[-500:], env.seed)], "replay_spec": None}
+            raise
+    return f
+
+
+def c07_layers(env):
+    ls = tzmon_layers(env)
+    ls.append(miri_layer(env, 0.002))
+    if not env.quick():
+        ls.append(fuzz_layer(env, "file", 120, seeds_dir=os.path.join(env.corpus, "zoneinfo", "blobs")))
+        ls.append(fuzz_layer(env, "string", 60, max_len=96))
+        ls.append(valgrind_layer(env, 0.02))
+    return ls
+
+
+def c08_layers(env):
+    ls = tzmon_layers(env)
+    ls.append(miri_layer(env, 0.002))
+    if not env.quick():
+        ls.append(fuzz_layer(env, "file", 120, seeds_dir=os.path.join(env.corpus, "zoneinfo", "blobs")))
+    return ls
+
+
+def c09_layers(env):
+    ls = tzmon_layers(env)
+    ls.append(miri_layer(env, 0.002))
+    if not env.quick():
+        ls.append(fuzz_layer(env, "string", 120, max_len=96))
+    return ls
+
+
+reg("C07", c07_layers, ["a clean sanitizer run is not memory safety; tz-rs forbids unsafe code, so the sanitizers are sentinels against a future edit"])
+reg("C08", c08_layers)
+reg("C09", c09_layers)
